@@ -356,6 +356,7 @@ func (r *GCRoles) waitSitesInPublish() []ssa.Instruction {
 func gcSafety(c *Check, P string, r *GCRoles) {
 	S := P + ".S"
 	c04FreshCopy(c, S, r)
+	c04HandsOff(c, S+".O1", r)
 	c04Resend(c, S, r)
 	c05OneInFlight(c, S, r)
 	c07SendCloseExclusion(c, S, r)
@@ -366,6 +367,7 @@ func gcSafety(c *Check, P string, r *GCRoles) {
 	c07LockHolders(c, S, r)
 	c07RemoveExact(c, S, r)
 	c07ContainerInit(c, S, r)
+	c07NoIndexTrap(c, S, r)
 	c07TeardownOrder(c, S, r)
 	c07LockOrder(c, S, r)
 	r.LA.ReportLeaks(c, S, r.Funcs)
